@@ -195,6 +195,33 @@ def tamper_dataset(task: dict) -> dict:
             trial("dataset_info.json", "flip:+expected", bytes(b), expected=root_sums)
             for k, old in enumerate(older.get("dataset_info.json", [])):
                 trial("dataset_info.json", f"rollback:{k}+expected", old, expected=root_sums)
+            # well-formed edits of the description (an attacker who can write the file can also write valid JSON):
+            # the configured algorithm list emptied / shortened / reordered, a count changed, a split dropped
+            try:
+                doc = json.loads(data)
+            except ValueError:
+                doc = None
+            if isinstance(doc, dict):
+                def edits(d):
+                    ds = d.get("dataset_structure", {})
+                    algos = list(ds.get("hash_checksum_algorithms", []))
+                    for name, new in (("no-algorithms", []), ("fewer-algorithms", algos[:-1]),
+                                      ("reordered-algorithms", algos[::-1]), ("one-algorithm-repeated", algos[:1] * 2)):
+                        if new != algos:
+                            e = json.loads(json.dumps(d))
+                            e["dataset_structure"]["hash_checksum_algorithms"] = new
+                            yield name, e
+                    for sp, info in d.get("splits", {}).items():
+                        e = json.loads(json.dumps(d))
+                        e["splits"][sp]["number_of_examples"] = info.get("number_of_examples", 0) + 1
+                        yield f"count+1:{sp}", e
+                        e = json.loads(json.dumps(d))
+                        del e["splits"][sp]
+                        yield f"split-dropped:{sp}", e
+                        break
+                for name, e in edits(doc):
+                    trial("dataset_info.json", f"edit:{name}+expected", json.dumps(e, indent=2).encode(),
+                          expected=root_sums)
             # without expected checksums nothing is demanded for a change that keeps the document loadable
             trial("dataset_info.json", "extend:newline-noexpected", data + b"\n", demand=False)
         # unreachable files (orphans): no demand
